@@ -81,7 +81,19 @@ def clause_a(c: Check):
     ix, fo = c.ix, c.fo
     fd = ix.func(PE + ':execute')
     inner = ix.func(EXECUTOR_MOD + ':execute')
-    hooks = ForkHooks(ix)
+    class H(ForkHooks):
+        # a helper of util.file_utils that wraps the removal is followed; inside it every os.* call may fail
+        def inline(self, f_, st):
+            return f_.module.name.startswith('exactly_lib.util.file_utils') and not f_.is_generator
+
+        def may_raise(self, callee_def, node, st):
+            fr = st.frame.func
+            if fr is not None and fr.module.name.startswith('exactly_lib.util.file_utils') \
+                    and isinstance(callee_def, External) and callee_def.dotted.startswith('os.'):
+                return [External('builtins.OSError')]
+            return []
+
+    hooks = H(ix, loop_bound=1)
     hooks.fork_on(lambda d, n, cv: d == inner, [
         ('raises', ('raise', External('builtins.Exception'))),
         ('result', lambda: Sym('partial_result', nullness=False, origin=('partial-result',))),
